@@ -143,11 +143,6 @@ CTORS_ANY_ORDER = ("from_edges_sets", "from_adj", "from_adj_sets", "from_str_adj
 CTORS = CTORS_SAME_ORDER + CTORS_ANY_ORDER
 
 
-def _none_if_empty(xs, flag):
-    """optional arguments: an empty edge list may as well be omitted (None)"""
-    return None if (flag and not xs) else xs
-
-
 def build_graph(g, ctor="from_edges", seed=0, name=G.vname):
     """NxMixedGraph of the graph dict {nodes, di, bi} (integer space) through the public constructor `ctor`.
     `seed` drives the shuffles of the order-free constructors."""
